@@ -7,7 +7,7 @@ Require Import Cirbo.Model.Base Cirbo.Model.Gate Cirbo.Model.Den Cirbo.Model.Cir
 Require Import Cirbo.Generated.GateTypes Cirbo.Generated.PatternOps.
 Require Import Cirbo.Proofs.DictFacts Cirbo.Proofs.PatternBits Cirbo.Proofs.PatternFacts
         Cirbo.Proofs.InputsTT.
-Open Scope N_scope.
+Local Open Scope N_scope.
 
 Lemma nth_error_seq s m j : (j < m)%nat -> nth_error (seq s m) j = Some (s + j)%nat.
 Proof.
@@ -128,6 +128,48 @@ Section Sim.
         [apply Ho; exact Hi|exact IH].
   Qed.
 
+  Lemma step_ok seen d g :
+    inv seen d -> arity_okb g = true ->
+    forallb (fun o => memb o leaves || memb o seen) (gops g) = true ->
+    exists p, eval_pattern (max_pattern n) (gtyp g) (map (pat_get d) (gops g)) = Ok p.
+  Proof.
+    intros [Hd Hk] Har Hops.
+    unfold arity_okb in Har. destruct (pattern_arity (gtyp g)) as [k|] eqn:Ek; [|discriminate].
+    apply Nat.eqb_eq in Har. subst k.
+    destruct (eval_pattern_den n (gtyp g) (map (pat_get d) (gops g))) as (r & Hr & _).
+    - rewrite map_length; exact Ek.
+    - apply Forall_map. apply Forall_forall; intros o Ho.
+      rewrite forallb_forall in Hops. specialize (Hops o Ho).
+      apply orb_true_iff in Hops. rewrite !memb_In in Hops.
+      specialize (Hk o Hops). unfold dmem in Hk. unfold pat_get.
+      destruct (dget d o) as [q|] eqn:E; [|discriminate]. apply (Hd o q E).
+    - exists r; exact Hr.
+  Qed.
+
+  Lemma sim_loop_total : forall nodes seen d,
+    inv seen d -> cone_okb c leaves seen nodes = true ->
+    exists d', foldM (fun d node =>
+             if memb node leaves then Ok d else
+             do g <- get_gate c node;
+             do p <- eval_pattern (max_pattern n) (gtyp g) (map (pat_get d) (gops g));
+             Ok (dset d node p)) nodes d = Ok d'.
+  Proof.
+    induction nodes as [|x xs IH]; intros seen d Hinv Hok; simpl in *; [eexists; reflexivity|].
+    destruct (memb x leaves) eqn:Em; simpl; [apply (IH seen d Hinv Hok)|].
+    unfold get_gate. destruct (dget (gates c) x) as [g|] eqn:Eg; [|discriminate]. simpl.
+    apply andb_true_iff in Hok. destruct Hok as [Hok Hrest].
+    apply andb_true_iff in Hok. destruct Hok as [Har Hops].
+    destruct (step_ok seen d g Hinv Har Hops) as (p & Hp). rewrite Hp. simpl.
+    apply (IH (x :: seen)); [|exact Hrest].
+    assert (good x p) as Hgx.
+    { eapply step_good; try eassumption. apply memb_nIn; exact Em. }
+    destruct Hinv as [Hd Hk]. split.
+    - intros l q. rewrite dget_dset. destruct (leqb_spec l x) as [->|Hne]; [|apply Hd].
+      intros [= <-]; exact Hgx.
+    - intros l Hl. rewrite dmem_dset. destruct (leqb_spec l x) as [->|Hne]; [reflexivity|].
+      simpl. apply Hk. destruct Hl as [Hl|[Hl|Hl]]; auto. congruence.
+  Qed.
+
   Lemma sim_loop : forall nodes seen d d',
     inv seen d -> cone_okb c leaves seen nodes = true ->
     foldM (fun d node =>
@@ -182,3 +224,25 @@ Proof.
   right. rewrite app_nil_r. apply -> in_rev. exact Hl.
 Qed.
 
+
+Lemma assign_leaves_ok : forall ls tts d,
+  (length ls <= length tts)%nat -> exists d', assign_leaves ls tts d = Ok d'.
+Proof.
+  induction ls as [|x xs IH]; intros tts d Hl; simpl; [eexists; reflexivity|].
+  destruct tts as [|t ts]; simpl in Hl; [lia|]. apply IH. lia.
+Qed.
+
+(* on a cone that satisfies the side conditions the simulation raises nothing
+   (no IndexError, no UnsupportedOperationError) *)
+Theorem simulate_cone_total c leaves nodes :
+  NoDup leaves -> cone_okb c leaves [] nodes = true ->
+  exists d, simulate_cone c leaves nodes = Ok d.
+Proof.
+  intros Hnd Hok. unfold simulate_cone.
+  destruct (assign_leaves_ok leaves (generate_inputs_tt (N.of_nat (length leaves))) []) as (d0 & Hd0).
+  { destruct (generate_inputs_tt_spec (N.of_nat (length leaves))) as [Hl _].
+    rewrite Hl, Nat2N.id. apply Nat.le_refl. }
+  rewrite Hd0. simpl.
+  apply (sim_loop_total c leaves nodes [] d0); [|exact Hok].
+  apply init_inv; assumption.
+Qed.
